@@ -64,21 +64,21 @@ var wanted = map[string][]string{
 }
 
 func init() {
-	regE("C01", "chips conserved", 3000)
-	regE("C02", "showdown pays the right players", 4000)
+	regE("C01", "chips conserved", 24000)
+	regE("C02", "showdown pays the right players", 32000)
 	props["C02"].World = func() sim.World { return engine.Mixed{} }
 	props["C02"].WorldName = "E+P"
-	regE("C04", "only the player to act can act", 2500)
-	regE("C05", "betting round closes exactly when it should", 3000)
-	regE("C06", "hand always says what comes next and finishes", 3000)
-	regE("C07", "resumable from JSON at every wait point", 2500)
-	regE("C10", "reported hand is the true best hand", 2500)
-	regE("C11", "offered actions fit the situation", 3000)
-	regE("C12", "minimum raise and hostile amounts", 3000)
-	regE("C13", "antes and blinds", 4000)
-	regE("C14", "cards dealt without loss or duplication", 3000)
-	regE("C15", "views do not leak", 1500)
-	regE("C16", "published pots partition the chips", 4000)
+	regE("C04", "only the player to act can act", 16000)
+	regE("C05", "betting round closes exactly when it should", 24000)
+	regE("C06", "hand always says what comes next and finishes", 24000)
+	regE("C07", "resumable from JSON at every wait point", 20000)
+	regE("C10", "reported hand is the true best hand", 20000)
+	regE("C11", "offered actions fit the situation", 24000)
+	regE("C12", "minimum raise and hostile amounts", 32000)
+	regE("C13", "antes and blinds", 32000)
+	regE("C14", "cards dealt without loss or duplication", 24000)
+	regE("C15", "views do not leak", 8000)
+	regE("C16", "published pots partition the chips", 32000)
 	props["C16"].World = func() sim.World { return engine.Mixed{} }
 	props["C16"].WorldName = "E+P"
 	registerOther()
@@ -311,12 +311,16 @@ func cmdCheck(args []string) int {
 	exit := 0
 	replayPath := ""
 	nviol := 0
-	if len(fresh) > 0 {
-		v := fresh[0]
+	for fi := 0; fi < len(fresh) && exit == 0; fi++ {
+		v := fresh[fi]
 		nviol = len(fresh)
-		fmt.Printf("violation candidates: %d signature(s); minimising the first: %s :: %s\n", len(fresh), v.Sig, v.Detail)
-		for _, o := range fresh[1:] {
-			fmt.Printf("  also: %s (%d runs) :: %s\n", o.Sig, o.Count, o.Detail)
+		if fi == 0 {
+			fmt.Printf("violation candidates: %d signature(s); minimising the first: %s :: %s\n", len(fresh), v.Sig, v.Detail)
+			for _, o := range fresh[1:] {
+				fmt.Printf("  also: %s (%d runs) :: %s\n", o.Sig, o.Count, o.Detail)
+			}
+		} else {
+			fmt.Printf("trying the next signature: %s :: %s\n", v.Sig, v.Detail)
 		}
 		// Minimisation and the reproduction proof run in fresh child
 		// processes: a failing case must reproduce on its own, from a clean
@@ -367,10 +371,14 @@ func cmdCheck(args []string) int {
 			break
 		}
 		if got == nil {
-			fmt.Fprintf(os.Stderr, "HARNESS-FAULT: violation %q (first seen in run %d) does not reproduce from a clean process in any of %d recorded cases\n", v.Sig, v.FirstRun, len(cands))
-			dump := filepath.Join(replayDir(), fmt.Sprintf("%s-%d-unreproduced.json", *p, v.Case.SubSeed))
-			writeCase(dump, v.Case)
-			return 2
+			fmt.Fprintf(os.Stderr, "violation %q (first seen in run %d) does not reproduce from a clean process in any of %d recorded cases\n", v.Sig, v.FirstRun, len(cands))
+			if fi == len(fresh)-1 {
+				fmt.Fprintln(os.Stderr, "HARNESS-FAULT: no recorded violation reproduces from a clean process")
+				dump := filepath.Join(replayDir(), fmt.Sprintf("%s-%d-unreproduced.json", *p, v.Case.SubSeed))
+				writeCase(dump, v.Case)
+				return 2
+			}
+			continue
 		}
 		fmt.Printf("  %s\n  steps: ", got.Detail)
 		for _, s := range min.Steps {
